@@ -602,6 +602,17 @@ def jis_byte(c):
     raise ValueError(c)
 
 
+def jis_char(b):
+    """JIS X 0201: the code point byte b stands for (the harness's own table)"""
+    if b == 0x5C:
+        return 0xA5
+    if b == 0x7E:
+        return 0x203E
+    if 0xA1 <= b <= 0xDF:
+        return b + 0xFEC0
+    return b
+
+
 def norm_val(v):
     """what v is after a trip over the wire: F4 elements rounded to binary32"""
     t, xs = v
